@@ -206,10 +206,104 @@ def run(ctx):
     ctx.assume("tokio Mutex/RwLock guards are released at end of scope; salsa cancels readers on write (Cancelled)")
     ctx.assume("schedules are NOT explored: freedom from data races is Rust's type system, atomicity of the listed "
                "critical sections is argued from lock scope")
+    rule_revision_source(ctx)
+    rule_publication(ctx)
     return {}
 
 
 LOCK_FIELDS = {"session": ("lock",), "projects": ("read", "write")}
+
+
+def rule_revision_source(ctx):
+    """Revisions are compared across close/reopen of the same path (commit_analysis), so they must never repeat."""
+    from .. import armlib as A
+    rule = "revision-source"
+    facts = ctx.facts
+    ctx.rule(rule, "DocumentRevision values are built only in SessionState::set_document from the session-wide counter "
+                   "next_document_revision, which is only ever advanced (checked_add(1) in set_document, a literal in Default): a "
+                   "revision is never reused for a path that was closed and reopened")
+    sites = []
+    for p, bd in sorted(facts.bodies().items()):
+        if bd["tag"] not in ("cajun",) or bd.get("expn"):
+            continue
+        h = facts.hir(p)
+        if h is None:
+            continue
+        env = A.ArmEnv(); env.strip = True; env.bind_params(h)
+        for n in H.walk(h["body"]):
+            if H.kind(n) == "Call" and (H.callee(n) or "").endswith("DocumentRevision") and (n.get("ty") or "").endswith("DocumentRevision"):
+                sites.append((p.split("::{closure")[0], A.sexpr(n["args"][0], env), n.get("ln")))
+            if H.kind(n) == "Struct" and (n["path"].get("def") or "").endswith("DocumentRevision"):
+                sites.append((p.split("::{closure")[0], "struct", n.get("ln")))
+    consts = [p for p in facts.bodies() if p.startswith("cajun::") and "DocumentRevision" in p and facts.bodies()[p].get("kind") in ("const", "assoc_const", "AssocConst", "Const")]
+    ok = bool(sites) and all(f.endswith("SessionState::set_document") and v == "(. $P0 next_document_revision)" for f, v, _ in sites) and not consts
+    ctx.check(ok, rule, "DocumentRevision:producers", "DocumentRevision is built at %s (constants: %s); expected only DocumentRevision("
+              "self.next_document_revision) in SessionState::set_document: a per-document or restarted counter lets an analysis of the "
+              "closed document commit under the reopened document's revision" % ([(f.split("::")[-1], v) for f, v, _ in sites], consts),
+              None, detail={"producers": [(f.split("::")[-1], v) for f, v, _ in sites]})
+    writes = []
+    for p, bd in sorted(facts.bodies().items()):
+        if bd["tag"] != "cajun":
+            continue
+        h = facts.hir(p)
+        if h is None:
+            continue
+        env = A.ArmEnv(); env.strip = True; env.bind_params(h)
+        for n in H.walk(h["body"]):
+            if H.kind(n) in ("Assign", "AssignOp") and H.kind(H.peel(n["l"])) == "Field" and H.peel(n["l"])["name"] == "next_document_revision":
+                writes.append((p.split("::")[-1], A.sexpr(n["r"], env)))
+    ok = len(writes) == 1 and writes[0][0] == "set_document" and \
+        re.match(r"^\(core::option::Option::<T>::expect \(core::num::<impl u64>::checked_add \(\. \$P0 next_document_revision\) 1\) ", writes[0][1]) is not None
+    ctx.check(ok, rule, "counter:advance-only", "next_document_revision is written by %s; expected one checked_add(1) in set_document" % writes,
+              None, detail={"writes": writes})
+
+
+def rule_publication(ctx):
+    """What the server tells the client about an analysis that did not complete, and under which version."""
+    from .. import armlib as A
+    rule = "publication"
+    facts = ctx.facts
+    ctx.rule(rule, "analyze_and_publish publishes nothing for a Superseded (cancelled / overtaken) analysis; the revision an edit handler "
+                   "analyses and commits under is the one its own set_document installed (handed down), not one re-read later in a "
+                   "separate critical section")
+    fn = "cajun::Cajun::analyze_and_publish" if "cajun::Cajun::analyze_and_publish" in facts.bodies() else None
+    if fn is None:
+        ctx.anchor_lost(rule, "analyze_and_publish not found")
+        return
+    h = ctx.need_hir(rule, fn)
+    loc = facts.bodies()[fn]["loc"]
+    m = None
+    for x in H.walk(h["body"]):
+        if H.kind(x) == "Match" and not x.get("src") and any(v.endswith("RefreshOutcome::Superseded") for a in x["arms"] for v in H.pat_variants(a["pat"])) \
+                and len(x["arms"]) >= 3:
+            m = x
+    if m is None:
+        ctx.anchor_lost(rule, "analyze_and_publish: match on the refresh outcome not found")
+        return
+    sup = next(a for a in m["arms"] if any(v.endswith("RefreshOutcome::Superseded") for v in H.pat_variants(a["pat"])))
+    body = H.peel(sup["body"])
+    is_none = H.kind(body) == "Path" and (body.get("res", {}).get("def") or "").endswith("Option::None")
+    silent = H.diverges(sup["body"]) or H.kind(body) == "Ret" or is_none
+    publishes = any(c.endswith("::publish_diagnostics") for _, c in H.calls(h["body"]))
+    if not silent and publishes:
+        ctx.violation(rule, "superseded:published-as-empty", "analyze_and_publish maps a Superseded analysis to an empty diagnostics list and "
+                      "publishes it: any overlay install cancels every running analysis on the shared storage, so opening an unrelated "
+                      "document clears the errors of this one and nothing re-analyses it", [loc[0], sup.get("ln")])
+    else:
+        ctx.ok(rule, "superseded:silent", {"superseded": "nothing published"})
+    # the revision analysed: read in refresh_with_progress under its own lock acquisition
+    fn2 = "cajun::Cajun::refresh_with_progress"
+    h2 = ctx.need_hir(rule, fn2)
+    rereads = [n for n, c in H.calls(h2["body"]) if c.endswith("SessionState::revision")] if fn2 in facts.bodies() else []
+    setdoc = "cajun::Cajun::set_document"
+    fn2b = "cajun::Cajun::refresh_revision"
+    returns_rev = fn2b in facts.bodies() and setdoc in facts.bodies() and "DocumentRevision" in (facts.bodies()[setdoc].get("ret") or "")
+    if rereads and not returns_rev:
+        ctx.violation(rule, "revision:re-read-after-install", "did_open / did_change install the text in one critical section (set_document) and "
+                      "refresh_with_progress reads the revision to analyse in another: an edit arriving in between makes the handler of "
+                      "version N analyse, commit and publish the text of version N+1 labelled `version: N`", [facts.bodies()[fn2]["loc"][0], rereads[0].get("ln")])
+    else:
+        ctx.ok(rule, "revision:handed-down", {"revision": "returned by set_document"})
 
 
 def _acquisitions(body):
@@ -302,26 +396,66 @@ def _check_lock_fn(ctx, rule, path, body, acq, bd):
 
 
 def _check_refresh(ctx, rule):
-    fn = "cajun::Cajun::refresh_with_progress"
-    h = ctx.need_hir(rule, fn)
-    rev = snap = spawn = None
-    for i, n in enumerate(H.walk(h["body"])):
-        c = H.callee(n) if H.kind(n) in ("Call", "MethodCall") else None
-        if not c:
-            continue
-        if c.endswith("SessionState::revision") and rev is None:
-            rev = i
-        if c.endswith("CompilerSession::snapshot") and snap is None:
-            snap = i
-        if c.endswith("spawn_blocking") and spawn is None:
-            spawn = i
-    if None in (rev, snap, spawn):
-        ctx.anchor_lost(rule, "refresh_with_progress: revision/snapshot/spawn_blocking not all found")
+    """The snapshot analysed must hold the text of the revision the result is committed under."""
+    fn = "cajun::Cajun::refresh_revision"
+    if fn not in ctx.facts.bodies():
+        ctx.anchor_lost(rule, "refresh_revision not found")
         return
-    ctx.check(rev < snap < spawn, rule, "refresh:revision-before-snapshot",
-              "refresh_with_progress takes the snapshot before reading the document revision: a result computed on newer "
-              "contents could be committed under an older revision", ctx.facts.bodies()[fn]["loc"],
-              detail={"order": ["revision", "snapshot", "spawn_blocking"]})
+    h = ctx.need_hir(rule, fn)
+    loc = ctx.facts.bodies()[fn]["loc"]
+    # the block that takes the snapshot: `{ let session = lock; if session.revision(&path) != revision { return Superseded }; snapshot() }`
+    blk = None
+    for n in H.walk(h["body"]):
+        if H.kind(n) == "Block" and n.get("expr") is not None and (H.callee(H.peel(n["expr"])) or "").endswith("CompilerSession::snapshot"):
+            blk = n
+    if blk is None:
+        ctx.anchor_lost(rule, "refresh_revision: snapshot block not found")
+        return
+    locks = [x for x in H.walk(blk) if H.kind(x) == "MethodCall" and x["name"] == "lock"]
+    tests = []
+    for st in blk.get("stmts", []):
+        for x in H.walk(st):
+            if H.kind(x) == "If":
+                c = H.peel(x["c"])
+                sides = [(H.callee(H.peel(y)) or "") for y in (c.get("a"), c.get("b")) if isinstance(y, dict)] if H.kind(c) == "Binary" else []
+                rets = [r for r in H.walk(x["t"]) if H.kind(r) == "Ret"]
+                if H.kind(c) == "Binary" and c["op"] == "Ne" and any(s2.endswith("SessionState::revision") for s2 in sides) \
+                        and any("RefreshOutcome::Superseded" in str(r.get("e")) for r in rets):
+                    tests.append(x)
+    ctx.check(len(locks) == 1 and len(tests) == 1, rule, "refresh:snapshot-of-the-revision",
+              "refresh_revision does not take the snapshot in the critical section in which it tests that the document is still at the "
+              "revision to be analysed (locks %d, revision tests returning Superseded %d): the snapshot could hold newer text than the "
+              "revision the result is committed and published under" % (len(locks), len(tests)), loc,
+              detail={"critical_section": ["lock", "revision == revision to analyse", "snapshot"]})
+    order = []
+    for n in H.walk(h["body"]):
+        c = H.callee(n) if H.kind(n) in ("Call", "MethodCall") else None
+        if c and c.endswith("CompilerSession::snapshot"):
+            order.append("snapshot")
+        if c and c.endswith("spawn_blocking"):
+            order.append("spawn_blocking")
+    ctx.check(order[:2] == ["snapshot", "spawn_blocking"], rule, "refresh:snapshot-before-analysis", "refresh_revision: %s" % order, loc,
+              detail={"order": order})
+    # the revision analysed is the installed one when the caller installed text
+    env_src = [x for x in H.walk(h["body"]) if H.kind(x) == "Match" and not x.get("src") and H.path_local(x["scrut"]) is not None
+               and any(v.endswith("Option::Some") for a in x["arms"] for v in H.pat_variants(a["pat"]))]
+    ctx.check(bool(env_src), rule, "refresh:installed-revision", "refresh_revision no longer prefers the revision installed by the calling "
+              "edit handler over a re-read", loc, detail={"revision": "installed.or(current)"})
+    for hfn in ("did_open", "did_change"):
+        p = next((x for x in ctx.facts.bodies() if x.endswith("LanguageServer>::%s" % hfn) and "{closure" not in x), None)
+        if p is None:
+            ctx.anchor_lost(rule, "%s not found" % hfn)
+            continue
+        hh = ctx.need_hir(rule, p)
+        from .. import armlib as A
+        env = A.ArmEnv(); env.strip = True; env.bind_params(hh); env.absorb(hh["body"])
+        ok = False
+        for n in H.walk(hh["body"]):
+            if H.kind(n) == "MethodCall" and n["name"] == "analyze_and_publish":
+                arg = A.sexpr(n["args"][2], env)
+                ok = "cajun::Cajun::set_document" in arg
+        ctx.check(ok, rule, "%s:hands-down-revision" % hfn, "%s does not pass the revision returned by its own set_document to "
+                  "analyze_and_publish" % hfn, ctx.facts.bodies()[p]["loc"], detail={"handler": hfn})
 
 
 def _check_commit(ctx, rule):
